@@ -229,13 +229,21 @@ def main():
         if k % 5 == 0:
             methods = run.rng.sample(['features', 'leaf_features', 'or_groups', 'depth_tree', 'simple_constraints', 'root_feature',
                                       'mandatory_features', 'avg_children_per_feature'], 3)
-            op = FMMetrics()
-            op.only_these_metrics(methods)
-            frep = op.execute(m).get_result()
             full = {e['name']: e for e in rep}
-            ok = len(frep) == 3 and all(e['name'] in full and e['result'] == full[e['name']]['result'] and e['size'] == full[e['name']]['size']
-                                        and e['ratio'] == full[e['name']]['ratio'] for e in frep)
-            run.case('filtered report is the restriction of the full report', key, ok, f'filter {methods} gives {[e["name"] for e in frep]}', desc)
+            singles = run.rng.sample(['depth_tree', 'max_depth_tree', 'mean_depth_tree', 'median_depth_tree', 'min_constraints_per_feature',
+                                      'max_constraints_per_feature', 'avg_constraints_per_feature', 'leaf_features', 'abstract_features',
+                                      'min_children_per_feature', 'cross_tree_constraints', 'extra_constraint_representativeness'], 3)
+            for flt in [methods] + [[s] for s in singles] + [[singles[0], 'features']]:
+                try:
+                    op = FMMetrics()
+                    op.only_these_metrics(flt)
+                    frep = op.execute(m).get_result()
+                    ok = len(frep) == len(flt) and all(e['name'] in full and e['result'] == full[e['name']]['result']
+                                                       and e['size'] == full[e['name']]['size'] and e['ratio'] == full[e['name']]['ratio'] for e in frep)
+                    why = f'filter {flt} gives {[(e["name"], e["result"]) for e in frep]}'
+                except Exception as e:  # noqa: BLE001
+                    ok, why = False, f'filter {flt}: {type(e).__name__}: {e}'
+                run.case('filtered report is the restriction of the full report', key + ':' + ','.join(flt), ok, why, desc)
     run.finish('small trees (every cardinality), special families (several relations of every class pair / triple under one parent, groups with '
                'sub-trees, abstract / typed features), random trees, 0-4 random logical constraints plus one documented simple form; per model: '
                'fresh object and an object reused over sequences of 3 models; metric filter on every 5th model')
